@@ -129,14 +129,26 @@ func Handler(backendPort int, passthroughHandler http.Handler) http.Handler {
 			return
 		}
 		defer backendConn.Close()
+		// When either direction ends (because one peer closed its connection or failed),
+		// close both connections so that the other direction ends too, and the close is
+		// propagated to the other peer instead of being held back indefinitely.
 		var wg sync.WaitGroup
+		var closeOnce sync.Once
+		closeBoth := func() {
+			closeOnce.Do(func() {
+				backendConn.Close()
+				wsConn.Close()
+			})
+		}
 		wg.Add(2)
 		go func() {
 			defer wg.Done()
+			defer closeBoth()
 			io.Copy(backendConn, frontendConn)
 		}()
 		go func() {
 			defer wg.Done()
+			defer closeBoth()
 			io.Copy(frontendConn, backendConn)
 		}()
 		wg.Wait()
